@@ -1,10 +1,15 @@
 package main
 
 import (
+	"sync"
+
 	"go.uber.org/zap"
 )
 
+// SelfLearnRoute is shared by all the listeners of a service, each of which has its own
+// message loop goroutine
 type SelfLearnRoute struct {
+	sync.RWMutex
 	// map between destination ip/host and local server transport
 	route map[string]ServerTransport
 }
@@ -14,6 +19,8 @@ func NewSelfLearnRoute() *SelfLearnRoute {
 }
 
 func (sl *SelfLearnRoute) AddRoute(ip string, transport ServerTransport) {
+	sl.Lock()
+	defer sl.Unlock()
 	old, ok := sl.route[ip]
 	if ok && sl.isSameTransport(old, transport) {
 		return
@@ -29,6 +36,8 @@ func (sl *SelfLearnRoute) isSameTransport(transport1 ServerTransport, transport2
 }
 
 func (sl *SelfLearnRoute) GetRoute(ip string) (ServerTransport, bool) {
+	sl.RLock()
+	defer sl.RUnlock()
 	transport, ok := sl.route[ip]
 	if ok {
 		zap.L().Info("Succeed to get route for ip", zap.String("ip", ip), zap.String("protocol", transport.GetProtocol()), zap.String("addr", transport.GetAddress()), zap.Int("port", transport.GetPort()))
